@@ -304,7 +304,24 @@ class Palette:
         return {str(n): k for n, k in sorted(self.kinds.items()) if k != "int"}
 
 
-def make_callable(sig, self_kind, pal):
+def _decorate(fn, wrap):
+    """The callable as users often hand it to Memory.cache: behind a decorator.  `wraps`: functools.wraps (the signature is
+    found through __wrapped__); `sigattr`: an explicit __signature__.  The wrapper's own code object takes (*a, **k)."""
+    import functools
+
+    if wrap == "wraps":
+        @functools.wraps(fn)
+        def inner(*a, **k):
+            return fn(*a, **k)
+    else:
+        def inner(*a, **k):
+            return fn(*a, **k)
+        inner.__signature__ = inspect.signature(fn)
+        inner.__name__, inner.__qualname__, inner.__module__ = fn.__name__, fn.__qualname__, fn.__module__
+    return inner
+
+
+def make_callable(sig, self_kind, pal, wrap=None):
     ns = {"__name__": "c07_generated"}
     for i, (_, d) in enumerate(sig):
         if d:
@@ -313,6 +330,11 @@ def make_callable(sig, self_kind, pal):
                 pal.ident[id(pal.obj_of[300 + i])] = 300 + i
             ns[f"D{300 + i}"] = pal.obj_of[300 + i]
     exec(source(sig, self_kind), ns)  # noqa: S102 - generated from the enumerated signature only
+    if wrap:
+        if self_kind:
+            ns["K"].m = _decorate(ns["K"].m, wrap)
+        else:
+            ns["f"] = _decorate(ns["f"], wrap)
     if self_kind:
         obj = ns["K"]()
         pal.ident[id(obj)] = SELF_VAL
@@ -507,8 +529,10 @@ def run_signatures(ctx, jobs):
     reqs, pend = [], []
     for index, sig, self_kind, kw_sample, exotic in jobs:
         rng = ctx.rng(f"sig/{index}/{sig}/{self_kind}/{exotic}")
+        wrap = exotic if exotic in ("wraps", "sigattr") else None
+        exotic = exotic is True
         pal = Palette(draw_kinds(rng, sig, self_kind, index) if exotic else None)
-        f, obj = make_callable(sig, self_kind, pal)
+        f, obj = make_callable(sig, self_kind, pal, wrap)
         plain = None  # the same callable with plain int values, built when a failure has to be attributed
         first_accepted = True
         for args, kwargs in call_shapes(sig, self_kind, rng, kw_sample):
@@ -521,7 +545,7 @@ def run_signatures(ctx, jobs):
                 if not ignore and expected_full != "TypeError":
                     todo += ignore_lists(rng, expected_full, first_accepted)
                     first_accepted = False
-                meta = dict(values=pal.exotic(), value_dependent=False)
+                meta = dict(values=pal.exotic(), value_dependent=False, wrap=wrap)
                 if exotic and expected not in (None, "TypeError") and impl != expected:
                     if plain is None:
                         ppal = Palette()
@@ -551,6 +575,7 @@ def judge(res, sig, self_kind, args, kwargs, ignore, expected, expected_full, in
         call=("obj.m" if self_kind else "f")
         + "(" + ", ".join([str(a) for a in args] + [f"{k}={v}" for k, v in kwargs.items()]) + ")",
         values=meta["values"],  # slot id -> kind of object, for the slots that are not plain ints
+        wrap=meta.get("wrap"),  # None | "wraps" | "sigattr": the callable is behind a decorator
         python_binds=expected_full,
         expected=expected,
         filter_args=impl,
@@ -624,9 +649,10 @@ def run_cases(ctx, cases):
     for sig, self_kind, args, kwargs, ignore, *rest in cases:
         sig = tuple(tuple(p) for p in sig)
         pal = Palette(rest[0] if rest else None)
-        f, obj = make_callable(sig, self_kind, pal)
+        wrap = rest[1] if len(rest) > 1 else None
+        f, obj = make_callable(sig, self_kind, pal, wrap)
         expected, expected_full, insp, impl, base_ok = eval_case(filter_args, f, obj, sig, self_kind, tuple(args), kwargs, ignore, pal)
-        meta = dict(values=pal.exotic(), value_dependent=False)
+        meta = dict(values=pal.exotic(), value_dependent=False, wrap=wrap)
         if meta["values"] and expected not in (None, "TypeError") and impl != expected:
             ppal = Palette()
             pf, pobj = make_callable(sig, self_kind, ppal)
@@ -718,7 +744,12 @@ def plan(ctx, max_n, method_max_n, n_random, salt):
     for i in range(n_random):
         sig = random_signature(rng, rng.choice([6, 6, 7, 8]))
         jobs.append((sig, rng.choice([None, None, "po", "pk"]) if not any(k == "po" for k, _ in sig) else rng.choice([None, "po"]), 48))
-    return [(i, s, m, kws, ex) for i, (s, m, kws) in enumerate(jobs) for ex in (False, True)]
+    out = [(i, s, m, kws, ex) for i, (s, m, kws) in enumerate(jobs) for ex in (False, True)]
+    # the same callables behind a decorator (functools.wraps / explicit __signature__): plain int values
+    for i, (s, m, kws) in enumerate(jobs):
+        for w in (("wraps", "sigattr") if len(s) <= 3 else (("wraps", "sigattr")[i % 2],)):
+            out.append((i, s, m, kws, w))
+    return out
 
 
 def _shard(ctx_jobs):
@@ -763,7 +794,7 @@ def explore(ctx, max_n, method_max_n, n_random, salt=""):
 def run(ctx):
     if ctx.replay:
         c = ctx.replay.get("case", {})
-        return run_cases(ctx, [(c["sig"], c.get("method"), c.get("args", []), c.get("kwargs", {}), c.get("ignore", []), c.get("values") or None)])
+        return run_cases(ctx, [(c["sig"], c.get("method"), c.get("args", []), c.get("kwargs", {}), c.get("ignore", []), c.get("values") or None, c.get("wrap"))])
     if ctx.thorough:
         return explore(ctx, 6, 5, 400)
     return explore(ctx, 4, 2, 0)
